@@ -9,3 +9,4 @@ for p in "$@"; do
   echo "  $p rc=$rc $(echo "$out" | grep -E '^(VIOLATION|INCONCLUSIVE)' | head -2 | cut -c1-260 | tr '\n' ' ')"
 done
 git -C /repo checkout -- .
+git -C /verif checkout -- evidence 2>/dev/null  # evidence files describe the unchanged tree only
